@@ -136,7 +136,13 @@ class World:
         if self.bus_raises:
             self.fired['bus_typeerror'] += 1
             raise TypeError("simulated: comports() iterator failed")
-        return [ln.port_info() for ln in self.links if ln.plugged]
+        infos = [ln.port_info() for ln in self.links if ln.plugged]
+        style = self.scn['world'].get('enum', 'list')
+        if style == 'iter':
+            return iter(infos)                      # pyserial 2.x returned a one-shot generator
+        if style == 'tuple':
+            return tuple(infos)
+        return infos
 
     # ------------------------------------------------------------------
     def next_io(self, handle, kind):
